@@ -125,6 +125,12 @@ def run(ctx):
                 if not (s_ > 0 and s_ <= mx * (1 + 1e-12) and s_ == s_ and s_ != float("inf")):
                     bad.append("step size %r after update %d is not in (0, max_step_size=%r]" % (s_, i, mx))
                     break
+            # the averaged step size is a weighted average of the emitted (capped) step sizes
+            for i, r_ in enumerate(o["rows"]):
+                sa = b2f(r_["step_adapted"])
+                if sa == sa and sa > mx * (1 + 1e-9):
+                    bad.append("averaged step size %r after update %d exceeds max_step_size=%r (it must average the emitted step sizes)" % (sa, i, mx))
+                    break
             if "dominates" in c and c["dominates"] in outs:
                 stats["dominated_pairs"] += 1
                 lo = [b2f(r_["step"]) for r_ in outs[c["dominates"]]["rows"]]
